@@ -141,11 +141,11 @@ func minInt(a, b int) int {
 // ---------------------------------------------------------------- typed view
 
 type Account struct {
-	Addr     string
-	Coins    sdk.Coins
-	Upokt    sdk.BigInt
-	Module   string // module account name, "" for plain accounts
-	HasPub   bool
+	Addr   string
+	Coins  sdk.Coins
+	Upokt  sdk.BigInt
+	Module string // module account name, "" for plain accounts
+	HasPub bool
 }
 
 type View struct {
